@@ -1,5 +1,6 @@
 import TexelVerif.Chess.GenCheck
 import TexelVerif.Chess.Geometry
+import TexelVerif.Chess.Line
 import TexelVerif.Drv.Util
 /-! Line protocol for the chess specification (properties C01, C02, C17 …). -/
 namespace Drv.Chess
@@ -81,6 +82,19 @@ def step (args : List String) : String :=
         | none =>
           let legal := genLegal p
           s!"ok legal={legal.length} caps={(legal.filter (capClass p)).length} cc={(legal.filter (ccClass p)).length} chk={b2s d.inChk}"
+  | "line" :: f1 :: f2 :: f3 :: f4 :: f5 :: f6 :: moves =>
+    -- audit of a PV / move sequence: every move must be legal in sequence
+    match readFEN (fenOf [f1, f2, f3, f4, f5, f6]) with
+    | .error e => "err " ++ e.toString
+    | .ok p =>
+      let rec go (p : Pos) (ms : List String) (i : Nat) : String :=
+        match ms with
+        | [] => s!"ok {i} " ++ toFEN p ++ s!" legal={(genLegal p).length} chk={b2s (inCheck p.b p.wtm)}"
+        | s :: rest =>
+          match parseUci? p.wtm s with
+          | none => s!"illegal {i} {s}"
+          | some m => if legalB p m then go (fixupEP (apply p m)) rest (i + 1) else s!"illegal {i} {s}"
+      go p moves 0
   | ["atk", pc, s, occ] =>
     match parseNat? pc, parseNat? s, parseNat? occ with
     | some pc, some s, some occ =>
